@@ -32,11 +32,63 @@ type opRec struct {
 }
 
 type w13 struct {
-	st   *store.Store
-	a, b *ipfslog.IPFSLog
-	c    *ipfslog.IPFSLog
-	obs  *obs
-	recs [][]opRec // per thread
+	st    *store.Store
+	a, b  *ipfslog.IPFSLog
+	c     *ipfslog.IPFSLog
+	obs   *obs
+	recs  [][]opRec  // per thread
+	reads [][]readRec // per thread: what each reader call on a log returned, with its call/return timestamps
+}
+
+// readRec is one reader call: the set of entries it returned and when it ran.
+type readRec struct {
+	name      string
+	call, ret int
+	log       *ipfslog.IPFSLog
+	set       map[string]bool
+}
+
+//go:norace
+func (w *w13) noteRead(thread int, r readRec) {
+	for len(w.reads) <= thread {
+		w.reads = append(w.reads, nil)
+	}
+	w.reads[thread] = append(w.reads[thread], r)
+}
+
+func setOfEntries(es []iface.IPFSLogEntry) map[string]bool {
+	m := map[string]bool{}
+	for _, e := range es {
+		if e != nil {
+			m[e.GetHash().String()] = true
+		}
+	}
+	return m
+}
+
+// readConsistency: a read must contain every append that had returned on that log before the
+// read was called, and must not contain an append that was called after the read had returned.
+func (w *w13) readConsistency() []sched.Finding {
+	var fs []sched.Finding
+	for _, rs := range w.reads {
+		for _, rd := range rs {
+			for _, ops := range w.recs {
+				for _, op := range ops {
+					if op.entry == nil || op.err != nil || op.log != rd.log {
+						continue
+					}
+					h := op.entry.GetHash().String()
+					if op.ret < rd.call && !rd.set[h] {
+						fs = append(fs, sched.Finding{Key: "read-misses-completed-append:" + rd.name, What: fmt.Sprintf("%s began after %s had returned but does not contain its entry", rd.name, op.name)})
+					}
+					if op.call > rd.ret && rd.set[h] {
+						fs = append(fs, sched.Finding{Key: "read-sees-future-append:" + rd.name, What: fmt.Sprintf("%s returned before %s was called but contains its entry", rd.name, op.name)})
+					}
+				}
+			}
+		}
+	}
+	return fs
 }
 
 func newW13(threads int) *w13 { return newW13Sized(threads, false) }
@@ -144,6 +196,7 @@ func (w *w13) finalCheck(l *ipfslog.IPFSLog, name string, bounded bool) (string,
 			}
 		}
 	}
+	fs = append(fs, w.readConsistency()...)
 	if m := structural(l); m != "" && !bounded {
 		add("final:"+strings.Split(m, ":")[0], name+" final state: "+m)
 	}
@@ -188,7 +241,9 @@ func (w *w13) finalCheck(l *ipfslog.IPFSLog, name string, bounded bool) (string,
 // readers -------------------------------------------------------------------
 
 func (w *w13) readValues(slot int, l *ipfslog.IPFSLog) {
+	t0 := zvsync.Now()
 	vals := l.Values().Slice()
+	w.noteRead(slot, readRec{name: "Values", call: t0, ret: zvsync.Now(), log: l, set: setOfEntries(vals)})
 	if m := valuesValid(vals, nil); m != "" {
 		w.obs.add(slot, m)
 	}
@@ -212,7 +267,9 @@ func (w *w13) noteClosure(slot int, key string, vals []iface.IPFSLogEntry) {
 }
 
 func (w *w13) readSnapshot(slot int, l *ipfslog.IPFSLog) {
+	t0 := zvsync.Now()
 	s := l.ToSnapshot()
+	w.noteRead(slot, readRec{name: "ToSnapshot", call: t0, ret: zvsync.Now(), log: l, set: setOfEntries(s.Values)})
 	if m := valuesValid(s.Values, nil); m != "" {
 		w.obs.add(slot, "snapshot-"+m)
 		return
@@ -258,7 +315,9 @@ func (w *w13) readHeadsEntries(slot int, l *ipfslog.IPFSLog) {
 			}
 		}
 	}
+	t0 := zvsync.Now()
 	es := l.GetEntries().Slice()
+	w.noteRead(slot, readRec{name: "GetEntries", call: t0, ret: zvsync.Now(), log: l, set: setOfEntries(es)})
 	seen := map[string]bool{}
 	for _, e := range es {
 		if e == nil || seen[e.GetHash().String()] {
@@ -283,6 +342,11 @@ func (w *w13) readLenGet(slot int, l *ipfslog.IPFSLog, known iface.IPFSLogEntry)
 
 func (w *w13) readIterator(slot int, l *ipfslog.IPFSLog) {
 	ch := make(chan iface.IPFSLogEntry, 64)
+	t0 := zvsync.Now()
+	defer func() {
+		// recorded after draining below
+		_ = t0
+	}()
 	if err := l.Iterator(&ipfslog.IteratorOptions{}, ch); err != nil {
 		w.obs.add(slot, "iterator-error: "+err.Error())
 		return
@@ -305,6 +369,7 @@ loop:
 	if !closed {
 		w.obs.add(slot, "iterator-open: channel not closed")
 	}
+	w.noteRead(slot, readRec{name: "Iterator", call: t0, ret: zvsync.Now(), log: l, set: setOfEntries(got)})
 	// newest first: reverse must be a valid linearisation
 	rev := make([]iface.IPFSLogEntry, len(got))
 	for i, e := range got {
